@@ -44,9 +44,12 @@ Theorem C16_walker_cases_ok : forall k, kind_ok AF gen_frame (gen_table k) (gen_
 Proof. exact table_ok. Qed.
 Print Assumptions C16_walker_cases_ok.
 
-(* Deadcode() accepts iff the flag is set; nothing but the walker writes the flag *)
+(* Deadcode() accepts iff the flag is set; nothing but the walker writes the flag; every Deadcode() of every group is the closure
+   its own case of newFilter builds (no way around the switch on the operation, no table of filters in the loader: the text of a
+   filter -- `skip()` for a group-local func -- does not say what it computes) *)
 Theorem C16_deadcode_filter_reads_flag :
-  gen_deadcode_filter_accepts_iff_flag = true /\ gen_deadcode_op_wired = true /\ gen_ctx_writes_outside_walker = [].
+  gen_deadcode_filter_accepts_iff_flag = true /\ gen_deadcode_op_wired = true /\ gen_ctx_writes_outside_walker = [] /\
+  gen_newfilter_bypasses = [] /\ gen_loader_tables = [].
 Proof. vm_compute. auto. Qed.
 Print Assumptions C16_deadcode_filter_reads_flag.
 
